@@ -110,7 +110,7 @@ Definition k_kv_ok (kv : option N) : Prop :=
 (** Distance travelled by a schedule, counting what a restart can burn:
     one per value handed out, one epoch per restart. *)
 Definition g_cost (op : gop) : N :=
-  match op with GSync _ => 0 | GReserve _ => 1 | GStore _ => 0 | GCrash => G_EPOCH end.
+  match op with GSync _ => 0 | GReserve _ => 1 | GStore _ => 0 | GReset => 0 | GCrash => G_EPOCH end.
 Definition g_travel : list gop -> N := travel_gen g_cost.
 
 Definition e_cost (op : eop) : N :=
